@@ -145,4 +145,73 @@ example : GraphOK exGraph ∧ Reach exGraph exReq exReq.source ⟨1010500, 0, 80
     Reach.step Reach.start (by decide) (by decide) (by decide)
   exact Reach.step h1 (by intro h; cases h) (by decide) (by decide)
 
+/-! ### The `Fits` hypothesis is necessary (finding: fee arithmetic wraps)
+
+Both instances are reproduced on the real `findPath` + `newRoute` by the
+harness corpus (cases 1 and 2 of every run) and reported by the monitor as
+`clause=fee+overflow`. -/
+
+def ovReq (amt : Nat) : Req :=
+  { self := 0, source := 0, target := 2, amt := amt, feeLimit := 18446744073709551615,
+    cltvLimit := 4294967295, height := 800000, finalDelta := 40, lastHop := none,
+    outChans := [], ignNodes := [], ignPairs := [], bw := [] }
+
+/-- `0 —1→ 1 —2→ 2`; node 1 charges the maximal uint32 proportional fee. -/
+def ovGraphA : Graph :=
+  [ ⟨1, 0, 1, 8589934592, some ⟨0, 0, false, 0, 0, 40, false, 0, 0⟩, none⟩,
+    ⟨2, 1, 2, 8589934592, some ⟨0, 0, false, 0, 4294967295, 40, false, 0, 0⟩, none⟩ ]
+def ovEdgesA : List UEdge :=
+  [⟨1, 0, 1, 0, 0, 40, 0, 0, 8589934592⟩, ⟨2, 1, 2, 0, 4294967295, 40, 0, 0, 8589934592⟩]
+
+/-- node 1 charges an inbound fee at the clamp (10^7 ppm) on channel 1. -/
+def ovGraphB : Graph :=
+  [ ⟨1, 0, 1, 8589934592, some ⟨0, 0, false, 0, 0, 40, false, 0, 0⟩,
+                          some ⟨0, 0, false, 0, 0, 40, false, 0, 10000000⟩⟩,
+    ⟨2, 1, 2, 8589934592, some ⟨0, 0, false, 0, 0, 40, false, 0, 0⟩, none⟩ ]
+def ovEdgesB : List UEdge :=
+  [⟨1, 0, 1, 0, 0, 40, 0, 10000000, 8589934592⟩, ⟨2, 1, 2, 0, 0, 40, 0, 0, 8589934592⟩]
+
+/-- `ComputeFee` wraps in uint64 (`amt * rate = 2^64 + 2^32 − 2`): the search admits
+    the chain, `newRoute` builds a route that leaves node 1 4294 msat, while the
+    exact policy fee is 18446744078004 msat — the route is not `RouteValid`. -/
+theorem fee_wrap_violates_computeFee :
+    PathIn ovGraphA 0 ovEdgesA ∧
+    Reach ovGraphA (ovReq 4294967298) 0 ⟨4294971592, 0, 800080⟩ ovEdgesA ∧
+    newRoute 0 ovEdgesA 800000 4294967298 40 =
+      some ⟨0, 4294971592, 800080, [⟨1, 1, 4294967298, 800040⟩, ⟨2, 2, 4294967298, 800040⟩]⟩ ∧
+    requiredFee ⟨0, 0, false, 0, 4294967295, 40, false, 0, 0⟩ (0, 0) 4294967298 = 18446744078004 ∧
+    ¬ RouteValid ovGraphA (ovReq 4294967298)
+      ⟨0, 4294971592, 800080, [⟨1, 1, 4294967298, 800040⟩, ⟨2, 2, 4294967298, 800040⟩]⟩ := by
+  refine ⟨⟨⟨_, _, rfl, rfl, rfl, by decide⟩, rfl, rfl, ⟨_, _, rfl, rfl, rfl, by decide⟩, rfl⟩,
+    ?_, by decide, by decide, ?_⟩
+  · have h1 : Reach ovGraphA (ovReq 4294967298) 1 ⟨4294971592, 4294, 800080⟩
+        [⟨2, 1, 2, 0, 4294967295, 40, 0, 0, 8589934592⟩] :=
+      Reach.step Reach.start (by intro _ l h; cases h) (by decide) (by decide)
+    exact Reach.step h1 (by intro h; cases h) (by decide) (by decide)
+  · intro h
+    have := checker_complete _ _ _ h
+    revert this
+    decide
+
+/-- `InboundFee.CalcFee` wraps in int64 (`10^7 * 930000000000 ≥ 2^63`): node 1 is left
+    0 msat while its exact inbound fee is 9.3·10^12 msat. -/
+theorem fee_wrap_violates_calcFee :
+    PathIn ovGraphB 0 ovEdgesB ∧
+    Reach ovGraphB (ovReq 930000000000) 0 ⟨930000000000, 0, 800080⟩ ovEdgesB ∧
+    newRoute 0 ovEdgesB 800000 930000000000 40 =
+      some ⟨0, 930000000000, 800080, [⟨1, 1, 930000000000, 800040⟩, ⟨2, 2, 930000000000, 800040⟩]⟩ ∧
+    requiredFee ⟨0, 0, false, 0, 0, 40, false, 0, 0⟩ (0, 10000000) 930000000000 = 9300000000000 ∧
+    ¬ RouteValid ovGraphB (ovReq 930000000000)
+      ⟨0, 930000000000, 800080, [⟨1, 1, 930000000000, 800040⟩, ⟨2, 2, 930000000000, 800040⟩]⟩ := by
+  refine ⟨⟨⟨_, _, rfl, rfl, rfl, by decide⟩, by unfold InbIn; decide, rfl, ⟨_, _, rfl, rfl, rfl, by decide⟩, rfl⟩,
+    ?_, by decide, by decide, ?_⟩
+  · have h1 : Reach ovGraphB (ovReq 930000000000) 1 ⟨930000000000, 0, 800080⟩
+        [⟨2, 1, 2, 0, 0, 40, 0, 0, 8589934592⟩] :=
+      Reach.step Reach.start (by intro _ l h; cases h) (by decide) (by decide)
+    exact Reach.step h1 (by intro h; cases h) (by decide) (by decide)
+  · intro h
+    have := checker_complete _ _ _ h
+    revert this
+    decide
+
 end LndModel.C19
